@@ -178,10 +178,12 @@ package policy
 // (trace contract over calls / arguments / results); every concrete policy executor is verified separately.
 
 //@ func (*BaseExecutor).PreExecute
+//@   props C02, C04, C05, C06, C07, C08, C09, C10, C11, C16, C17
 //@   ensures [C01.base.preexecute] result == nil
 //@   modifies nothing
 
 //@ func (*BaseExecutor).Apply$1
+//@   props C02, C04, C05, C06, C07, C08, C09, C10, C11, C16, C17
 //@   requires e != nil && e.Executor != nil && innerFn != nil
 //@   requires typeis(exec, *failsafe.execution)
 //@   ext pre := ret(e.Executor.PreExecute, 1)
@@ -193,6 +195,7 @@ package policy
 //@   modifies calls(e.Executor.PreExecute), calls(innerFn), calls(e.Executor.PostExecute)
 
 //@ func (*BaseExecutor).PostExecute
+//@   props C02, C04, C05, C06, C07, C08, C09, C10, C11, C16, C17
 //@   requires e != nil && e.Executor != nil && er != nil
 //@   ext isf := retb(e.Executor.IsFailure, 1)
 //@   ensures [C01.post.classify] ncalls(e.Executor.IsFailure) == 1 && arg(e.Executor.IsFailure, 1, 0) == er.Result && arg(e.Executor.IsFailure, 1, 1) == er.Error
@@ -235,6 +238,7 @@ package policy
 //@   requires d != nil
 //@   requires [C14.user_callback_gets_copy] (exec != nil && d.DelayFunc != nil) ==> userCopy(exec)
 //@   ensures [C13.computedelay+C03.open_delay.computed+C04.open_delay.computed] (exec != nil && d.DelayFunc != nil) ==> ncalls(d.DelayFunc) == 1 && result == ret(d.DelayFunc, 1) && arg(d.DelayFunc, 1, 0) == exec
+//@   ensures [C13.computedelay.when] (exec != nil && d.DelayFunc != nil) ==> old(now()) <= tickof(d.DelayFunc, 1) && tickof(d.DelayFunc, 1) < now()
 //@   ensures [C13.computedelay.none+C03.open_delay.not_computed+C04.open_delay.not_computed] !(exec != nil && d.DelayFunc != nil) ==> result == -1 && ncalls(d.DelayFunc) == 0
 //@   havoc
 //@   modifies calls(d.DelayFunc)
